@@ -123,6 +123,11 @@ TWINS = [
      ["--split-by=[{\"v\": 5, \"g\": \"a\"}, {\"v\": 5, \"g\": \"b\"}, {\"v\": 5, \"g\": \"c\"}]", "--select=(| .v (concat (stringify .) ^.g)) =r", "--select=(| .v (concat (stringify .) ^.g)) =q"]),
     (["--set=@d=(default /x/ 0)", "--filter=(number? @d)", "--select=(default .n 1) =x", "--select=@d =y", "--select=(default .s \"\") =x2", "--select=(push [] @d /x2/) =z"],
      ["--filter=(number? (default /x/ 0))", "--select=(default .n 1) =x", "--select=(default /x/ 0) =y", "--select=(default .s \"\") =x2", "--select=(push [] (default /x/ 0) /x2/) =z"]),
+    # an expression handed over as text means what the text means - on every record, in every position
+    (["--select=(parse_selection \".n\") =x", "--filter=(number? (parse_selection \".n\"))", "--sort-by=(parse_selection \".s\")", "--select=(+ (parse_selection \".m\") 10) =y"],
+     ["--select=.n =x", "--filter=(number? .n)", "--sort-by=.s", "--select=(+ .m 10) =y"]),
+    (["--set=@ps=(parse_selection \"(size .l)\")", "--select=@ps =x", "--group-by=(parse_selection \"(stringify .b)\")"],
+     ["--select=(size .l) =x", "--group-by=(stringify .b)"]),
     (["--set=@v=:t", "--select=(push [] (set \"t\" 1 @v) (set \"t\" 2 @v) (map [0, 0] (set \"t\" ^.n @v))) =r"],
      ["--select=(push [] 1 2 (map [0, 0] ^.n)) =r"]),
 ]
@@ -136,6 +141,8 @@ def twin_records(jvh, rnd, n, first_case):
     for i in range(n):
         a, b = TWINS[i % len(TWINS)]
         rows = [X.typed_input(rnd) for _ in range(rnd.choice([1, 2, 3, 5]))]
+        if any("parse_selection" in x for x in a) and len(rows) < 3:
+            rows += [X.typed_input(rnd) for _ in range(3)]
         if i == len(TWINS):
             # 36 records on which a macro yields nothing, then records on which it has a value (nothing may wear out)
             a, b = ["--set=@nm=.o.deep", "--select=@nm =x", "--select=.n =n", "--filter=(number? .n)"], ["--select=.o.deep =x", "--select=.n =n", "--filter=(number? .n)"]
